@@ -39,7 +39,7 @@ static void truncation(const uint8_t* img, size_t len, const char* fdesc) {
             if (mode == 0 && cut == 0) continue;      /* open_buffer documents size 0 as invalid; nothing to observe */
             static const char* MN[] = { "buffer", "fread", "mmap" };
             if (rd) {
-                if (!complete) { char key[96]; const char* zone = (cut >= 12 && !memcmp(img + cut - 4, "PAR1", 4)) ? (strstr(fdesc, "length-magic-records") ? "prefix-ends-with-length-and-magic-record" : "prefix-ends-with-embedded-parquet-image") : cut >= len - 8 ? "inside-trailer" : cut < 4 ? "inside-leading-magic" : "inside-data-or-footer"; snprintf(key, sizeof key, "truncated.accepted.%s.%s", MN[mode], zone); mc_fail(key, "%s: prefix of %zu of %zu bytes opened as a table of %lld rows", fdesc, cut, len, (long long)carquet_reader_num_rows(rd)); }
+                if (!complete) { char key[96]; const char* zone = (cut >= 12 && !memcmp(img + cut - 4, "PAR1", 4)) ? (strstr(fdesc, "length-magic-records") ? "prefix-ends-with-length-and-magic-record" : strstr(fdesc, "adversarial-embedded-image") ? "prefix-ends-with-embedded-parquet-image" : strstr(fdesc, "metadata-without-stop") ? "prefix-ends-with-metadata-cut-short" : "prefix-ends-with-magic") : cut >= len - 8 ? "inside-trailer" : cut < 4 ? "inside-leading-magic" : "inside-data-or-footer"; snprintf(key, sizeof key, "truncated.accepted.%s.%s", MN[mode], zone); mc_fail(key, "%s: prefix of %zu of %zu bytes opened as a table of %lld rows", fdesc, cut, len, (long long)carquet_reader_num_rows(rd)); }
                 carquet_reader_close(rd);
             } else {
                 if (err.code == CARQUET_OK) { char key[96]; snprintf(key, sizeof key, "truncated.null-without-error-code.%s", MN[mode]); mc_fail(key, "%s cut=%zu: open returned NULL but the error struct says OK", fdesc, cut); }
@@ -170,6 +170,23 @@ static void enumerate(void) {
             blob_off = q;
         }
         truncation(out.p, out.n, "c18a:adversarial-length-magic-records"); mc_count("cuts", out.n); ref_buf_free(&out); ref_arena_free(&RA);
+    }
+    if (mc_next()) {     /* adversarial: a string value holding a FileMetaData that lacks only its final STOP byte, its length and the magic: the prefix that ends there carries metadata cut short by a crash */
+        mc_desc("c18a:adversarial-metadata-without-stop"); mc_case_key(0x18ad); mc_nontrivial(); mc_feature("truncation");
+        static ref_schema_elem sc[2]; memset(sc, 0, sizeof sc); sc[0].name = (ref_bin){ (const uint8_t*)"schema", 6, true }; sc[0].has_num_children = true; sc[0].num_children = 1;
+        sc[1].name = (ref_bin){ (const uint8_t*)"v", 1, true }; sc[1].has_type = true; sc[1].type = PT_INT32; sc[1].has_rep = true; sc[1].rep = 0;
+        ref_write_req rq; memset(&rq, 0, sizeof rq); rq.schema = sc; rq.nschema = 2; rq.nleaves = 1; rq.nrg = 0; ref_buf inner; ref_buf_init(&inner);
+        if (ref_pq_write(&RA, &rq, &inner, NULL, 0, NULL)) mc_harness_error("reference writer failed (empty file)");
+        ref_file rf; if (ref_pq_read(&RA, inner.p, inner.n, &rf, 0)) mc_harness_error("reference reader rejects the empty file");
+        uint32_t flen = (uint32_t)(inner.n - 8 - rf.footer_start); if (flen < 4 || inner.p[rf.footer_start + flen - 1] != 0x00) mc_harness_error("footer does not end with STOP");
+        for (uint32_t drop = 1; drop <= 3; drop++) {      /* the final STOP, and one / two more bytes, missing */
+            static uint8_t blob[600]; uint32_t bl = flen - drop; memcpy(blob, inner.p + rf.footer_start, bl); blob[bl] = (uint8_t)bl; blob[bl + 1] = (uint8_t)(bl >> 8); blob[bl + 2] = 0; blob[bl + 3] = 0; memcpy(blob + bl + 4, "PAR1", 4);
+            carquet_error_t err = CARQUET_ERROR_INIT; carquet_schema_t* sch = carquet_schema_create(&err); (void)carquet_schema_add_column(sch, "blob", CARQUET_PHYSICAL_BYTE_ARRAY, NULL, CARQUET_REPETITION_REQUIRED, 0);
+            carquet_writer_options_t wo; carquet_writer_options_init(&wo); wo.compression = CARQUET_COMPRESSION_UNCOMPRESSED; char* mem = NULL; size_t mlen = 0; FILE* mf = open_memstream(&mem, &mlen); carquet_writer_t* w = carquet_writer_create_file(mf, sch, &wo, &err); carquet_byte_array_t v = { blob, (int32_t)(bl + 8) };
+            if (!w || carquet_writer_write_batch(w, 0, &v, 1, NULL, NULL) != CARQUET_OK || carquet_writer_close(w) != CARQUET_OK) mc_harness_error("cannot write the metadata-without-stop seed");
+            fclose(mf); carquet_schema_free(sch); if (!memmem(mem, mlen, blob, bl + 8)) mc_harness_error("metadata-without-stop seed: value not found in the file");
+            char d[64]; snprintf(d, sizeof d, "c18a:adversarial-metadata-without-stop;missing=%u", drop); truncation((const uint8_t*)mem, mlen, d); mc_count("cuts", mlen); free(mem); }
+        ref_buf_free(&inner); ref_arena_free(&RA);
     }
     if (mc_next()) {     /* a 12 MB file whose INT32 values contain <length> "PAR1" pairs: the prefixes that end right after such a pair carry a plausible footer length of several MiB */
         mc_desc("c18a:large-file-length-magic-pairs"); mc_case_key(0x18ac); mc_nontrivial(); mc_feature("truncation"); mc_budget_ms(120000);
